@@ -20,7 +20,7 @@ func init() {
 		Title: "Intersects and Distance agree with exact geometry and with Relate",
 		Rule: "cases = operand pairs over all 8x8 operand kinds (seven types incl. collections with empty members, typed empties) from D-small/D-large/D-gp, half of them with the second operand translated away by a lattice vector so that Distance takes its search path, plus triples for the triangle inequality; " +
 			"judged against exact intersects (arrangement) and exact minimum distance (rational squared distances, 200-bit square root). non-trivial = envelopes intersect or the indexed operand has >= 8 segments; distinct by operand WKB",
-		Assumptions: []string{"distance tolerance 1e-11*max(1,M) (about 45 ulps of the largest ordinate), envelope bound slack 1e-12*M, triangle slack 3e-9*M — fixed in DESIGN.md before the check existed",
+		Assumptions: []string{"distance tolerance 1e-13*max(1,M) (about 450 ulps of the largest ordinate; the statement says a few ulps, the largest error observed on the unchanged tree is below 2 ulps), envelope bound slack 1e-12*M, triangle slack 3e-9*M — fixed in DESIGN.md before the check existed",
 			"near-degenerate pairs (clearance < 1e-9*M lattice / 1e-6*M general position) are excluded and counted"},
 		MinNontrivial:    300,
 		RequiredMonitors: []string{"intersects-exact", "intersects-sym", "disjoint", "intersection-empty", "dist-defined", "dist-zero", "dist-exact", "dist-sym", "dist-env", "dist-triangle"},
@@ -111,7 +111,7 @@ func Pair(k *run.K, domain string, a, b geom.Geometry) (float64, bool, bool) {
 	k.Check("dist-zero", (d1 == 0) == want, "Distance=%v but exact intersects=%v", d1, want)
 	wd, _ := exact.Distance(sa, sb)
 	k.Obs("exact_distance", wd)
-	k.Check("dist-exact", math.Abs(d1-wd) <= 1e-11*M, "Distance(a,b)=%.17g, exact %.17g (diff %.3g)", d1, wd, d1-wd)
+	k.Check("dist-exact", math.Abs(d1-wd) <= 1e-13*M, "Distance(a,b)=%.17g, exact %.17g (diff %.3g)", d1, wd, d1-wd)
 	k.Max("max_distance_error_over_M", math.Abs(d1-wd)/M)
 	ed, eok := a.Envelope().Distance(b.Envelope())
 	k.Check("dist-env", eok && d1 >= ed-1e-12*M, "Distance=%.17g is below the envelope distance %.17g", d1, ed)
@@ -151,6 +151,26 @@ func runAll(c *run.Ctx) {
 				})
 			}
 		}
+	}
+	// small extents far from the origin (general position): absolute-coordinate formulas lose their digits here
+	for i := 0; i < c.N(1200, 20000); i++ {
+		c.Case("offset", i, func(k *run.K) {
+			domain := gen.DGP
+			cfg := gen.NewCfg(k.Rng, domain)
+			cfg.Side, cfg.Scale, cfg.GP = 12, []int{1, 1, 10}[k.Rng.Intn(3)], true
+			off := []int{100000, 1350000, 13500000}[k.Rng.Intn(3)]
+			cfg.OffX, cfg.OffY = off+k.Rng.Range(-500, 500), -off/3+k.Rng.Range(-500, 500)
+			g := &gen.G{R: k.Rng, Cfg: cfg}
+			a, b := operand(g, k.Rng.Intn(7)), operand(g, k.Rng.Intn(7))
+			if k.Rng.Bool() {
+				s := float64(cfg.Side * cfg.Scale)
+				b = translate(b, s+1, float64(k.Rng.Range(-3, 3)))
+			}
+			k.In("domain", domain)
+			k.In("a", shared.WKT(a))
+			k.In("b", shared.WKT(b))
+			Pair(k, domain, a, b)
+		})
 	}
 	for i := 0; i < c.N(2000, 40000); i++ {
 		c.Case("grid", i, func(k *run.K) {
